@@ -165,6 +165,7 @@ Section Moments.
     else if (op =? 5)%Z then average g 1 s
     else if (op =? 6)%Z then variance g 0 s
     else if (op =? 7)%Z then variance g 1 s
+    else if (op =? 8)%Z then normalize g (integrate g s)      (* PhaseSpace::integrateAndNormalize (inline, PhaseSpace.hpp) *)
     else s.
   Definition run_ops (g : geom) (s : state) (ops : list Z) : state := fold_left (run_op g) ops s.
 
